@@ -1,6 +1,8 @@
 package main
 
 import (
+	"go/parser"
+	"strings"
 	"fmt"
 	"hash/fnv"
 	"regexp"
@@ -245,6 +247,13 @@ func nilEq(a, b Value) *Term {
 			return x.IsNil
 		case SliceV:
 			return Eq(x.Addr, ConstI(0))
+		case *StructV:
+			// a pointer to a struct reachable from the inputs: its nil-ness is a boolean of its own, named
+			// after the access path (dereferences are NOT checked against it: pointers the code dereferences
+			// unconditionally are assumed valid, as everywhere in this engine)
+			if x.Prefix != "" && x.Key == nil {
+				return Var(x.Prefix+"$isnil", SBool)
+			}
 		}
 		return nil
 	}
@@ -341,7 +350,7 @@ func (c *FuncCtx) evalBinary(st *State, n *ast.BinaryExpr) Value {
 			eq = Eq(a.T, asBool(rv))
 		case IntV:
 			eq = Eq(a.T, asInt(rv))
-		case ErrV, NilV, SliceV:
+		case ErrV, NilV, SliceV, *StructV:
 			eq = nilEq(lv, rv)
 			if eq == nil {
 				panic(verr("unsupported comparison at %s", c.prog.pos(n)))
@@ -722,7 +731,27 @@ func (c *FuncCtx) execStmt(fr *frame, s ast.Stmt, st *State, k func(*State)) {
 	case *ast.ExprStmt:
 		if call, ok := n.X.(*ast.CallExpr); ok {
 			if id, ok := call.Fun.(*ast.Ident); ok && id.Name == "panic" {
-				c.oblige(st, "panic", "", TFalse, n)
+				// a reachable panic is a violation, unless the contract says when the function refuses its
+				// arguments by panicking (`panics <cond>`, evaluated in the state at the panic - it may name
+				// locals): then the obligation is that the refusal condition holds there
+				goal := TFalse
+				if raws := c.con.Raw["panics"]; len(raws) > 0 {
+					var facts []*Term
+					env := c.specEnv(st, &facts)
+					var ds []*Term
+					for _, raw := range raws {
+						x, err := parser.ParseExpr(strings.TrimSpace(raw))
+						if err != nil {
+							panic(verr("%s: bad panics clause %q", c.con.File, raw))
+						}
+						ds = append(ds, env.Bool(x))
+					}
+					for _, f := range facts {
+						st.assume(f)
+					}
+					goal = Or(ds...)
+				}
+				c.oblige(st, "panic", "", goal, n)
 				return // path ends
 			}
 			c.evalCall(st, call)
